@@ -349,6 +349,14 @@ class Interp:
                 else: b = z3.Extract(a.size() - 1, 0, b)
             return self.binop(rv[1], a, b, dest_ty, signed=self.op_signed(frame, rv[2]) or self.op_signed(frame, rv[3]))
         if k == 'unop':
+            if rv[1] == 'PtrMetadata':
+                v = self.operand(st, frame, rv[2])
+                while isinstance(v, (Ref, Unknown)):
+                    v = self.deref_load(st, v) if isinstance(v, Ref) else self.materialize(st, v)
+                for key in ('data', 'elems', 'items'):
+                    if isinstance(v, Obj) and isinstance(v.d.get(key), list): return z3.BitVecVal(len(v.d[key]), 64)
+                if isinstance(v, Obj) and 'b' in v.d: return z3.BitVecVal(len(v.d['b']), 64)
+                raise Stuck('PtrMetadata of ' + repr(v)[:60])
             a = self.as_z3(st, self.operand(st, frame, rv[2]))
             if rv[1] == 'Not': return z3.Not(a) if z3.is_bool(a) else ~a
             if rv[1] == 'Neg': return -a
@@ -586,13 +594,20 @@ class Interp:
                 if r is PUSHED: return [st]
                 if isinstance(r, States): return r.states
                 if isinstance(r, Forks):
-                    out = []
+                    feas = []
                     for cond, val, post in r.alts:
-                        s2 = st.clone() if len(r.alts) > 1 else st
                         if cond is not None:
-                            s2.pc.append(cond)
-                            if not self.feasible(s2): self.stats['pruned'] += 1; continue
+                            sc = z3.simplify(cond)
+                            if z3.is_false(sc): continue
+                            if not z3.is_true(sc) and not self.feasible(st, extra=cond): self.stats['pruned'] += 1; continue
+                        feas.append((cond, val, post))
+                    out = []
+                    for i, (cond, val, post) in enumerate(feas):
+                        s2 = st if i == len(feas) - 1 else st.clone()
+                        if cond is not None: s2.pc.append(cond)
                         if post: post(s2)
+                        if val is CRASH:        # the process dies here: the path ends, the environment stays as it is
+                            s2.result = Obj('crash'); s2.frames = []; out.append(s2); continue
                         f2 = s2.frames[-1]
                         if dest is not None: self.store(s2, f2, dest, clone(val))
                         if ret_bb is None: continue
@@ -661,38 +676,45 @@ class Interp:
         if k == 'assert':
             c = self.as_z3(st, self.operand(st, fr, t[1]))
             want = c if t[2] else z3.Not(c)
-            s_fail = st.clone(); s_fail.pc.append(z3.Not(want))
             out = []
-            if self.feasible(s_fail):
-                s_fail.result = Obj('panic', msg=t[3]); s_fail.frames = []; out.append(s_fail)
-            st.pc.append(want)
-            if self.feasible(st):
-                fr.block, fr.idx = t[4]['success'], 0; out.append(st)
+            sw = z3.simplify(want)
+            if z3.is_true(sw):
+                fr.block, fr.idx = t[4]['success'], 0; return [st]
+            if not z3.is_false(sw) and self.feasible(st, extra=z3.Not(want)) or z3.is_false(sw):
+                s_fail = State(); s_fail.pc = list(st.pc) + [z3.Not(want)]; s_fail.events = list(st.events); s_fail.taint = list(st.taint)
+                s_fail.env = st.env; s_fail.result = Obj('panic', msg=t[3]); s_fail.frames = []; out.append(s_fail)
+            if not z3.is_false(sw):
+                st.pc.append(want)
+                if self.feasible(st):
+                    fr.block, fr.idx = t[4]['success'], 0; out.append(st)
             return out
         if k == 'switch':
             v = self.operand(st, fr, t[1])
             v = self.as_z3(st, v)
-            tg = t[2]; out = []; others = []
+            tg = t[2]; others = []
             items = [(kk, bb) for kk, bb in tg.items() if kk != 'otherwise']
+            feas = []        # (conds to add, target block)
             for kk, bb in items:
                 if z3.is_bool(v): cond = (v if int(kk) != 0 else z3.Not(v))
                 else: cond = (v == z3.BitVecVal(int(kk), v.size()))
                 others.append(z3.Not(cond))
                 sc = z3.simplify(cond)
                 if z3.is_false(sc): continue
-                s2 = st.clone();
-                if not z3.is_true(sc):
-                    s2.pc.append(cond)
-                    if not self.feasible(s2): self.stats['pruned'] += 1; continue
+                if z3.is_true(sc):
+                    feas.append(([], bb)); break
+                if self.feasible(st, extra=cond): feas.append(([cond], bb))
+                else: self.stats['pruned'] += 1
+            else:
+                if 'otherwise' in tg:
+                    bb = tg['otherwise']
+                    blk = fr.func.blocks[bb]
+                    if not (blk.term and blk.term[0] == 'unreachable' and not blk.stmts):
+                        if self.feasible(st, extra=z3.And(others) if others else None): feas.append((others, bb))
+            out = []
+            for i, (conds, bb) in enumerate(feas):
+                s2 = st if i == len(feas) - 1 else st.clone()
+                s2.pc.extend(conds)
                 f2 = s2.frames[-1]; f2.block, f2.idx = bb, 0; out.append(s2)
-                if z3.is_true(sc): return out
-            if 'otherwise' in tg:
-                bb = tg['otherwise']
-                if fr.func.blocks[bb].term and fr.func.blocks[bb].term[0] == 'unreachable' and not fr.func.blocks[bb].stmts:
-                    return out
-                s2 = st; s2.pc.extend(others)
-                if self.feasible(s2):
-                    fr.block, fr.idx = bb, 0; out.append(s2)
             return out
         if k == 'call': return self.call(st, fr, t)
         if k == 'unreachable': return []
@@ -724,6 +746,7 @@ class Interp:
 
 PUSHED = object()
 SKIP = object()
+CRASH = object()
 class States:
     def __init__(s, states): s.states = states
 class Forks:
